@@ -162,7 +162,9 @@ func nodeCheck(prop string, props string, rule string, withMirror bool) func(c *
 				mdev, mdepth = 2, 3
 			}
 			exploreDeviations(c, props, mdev, st, each)
-			exploreBFS(c, props, []int{0, 7, 16, 22}, mdepth, alphabet("core"), st, each)
+			if !c.Quick() || prop == "C09" {
+				exploreBFS(c, props, []int{0, 7, 16, 22}, mdepth, alphabet("core"), st, each)
+			}
 			if prop == "C09" {
 				exploreRaces(c, props)
 			}
